@@ -366,9 +366,16 @@ func observe(entry, kind int, shared map[string]*formula.SourceCode) (obs string
 	e := c08Pool[entry]
 	switch kind {
 	case 0:
-		o := safeParse([]byte(e.src))
+		// the text is a window of a larger buffer of the caller (formulas stored back to back): parsing
+		// reads the window and writes nowhere
+		const guard = "\x01next formula in the caller's buffer"
+		whole := append(append(make([]byte, 0, len(e.src)+len(guard)+8), e.src...), guard...)
+		o := safeParse(whole[:len(e.src)])
 		if o.panicked {
 			return "panic:" + o.panicMsg, nil
+		}
+		if string(whole[:len(e.src)]) != e.src || string(whole[len(e.src):]) != guard {
+			return "", eng.F("C08/caller-buffer-written", "parsing %q from a window of a larger buffer changed the caller's bytes: the buffer now reads %q", e.src, string(whole))
 		}
 		dumpIDs = false // two parses of one text must be structurally identical; ids are not structure
 		defer func() { dumpIDs = true }()
